@@ -5,6 +5,7 @@ mod c22;
 mod c23;
 mod fixtures;
 mod pipe;
+mod sched;
 
 fn main() {
     let args = Args::parse();
